@@ -310,6 +310,8 @@ def make_subset_data(data, pixels=None, return_selection=False, seed=None):
     [selection : np.ndarray, dtype int]
     """
     if pixels is None:
+        if return_selection:
+            return data, np.arange(flat(data).sizes['flat'])
         return data
     if seed is not None:
         np.random.seed(seed)
